@@ -92,8 +92,10 @@ def bins(start, stop, fmt="gff", one=True):
     if start >= MAX_CHROM_SIZE or stop >= MAX_CHROM_SIZE:
         if one:
             return 1
-        else:
+        elif start >= MAX_CHROM_SIZE:
             return {1}
+        # a range that reaches beyond the addressable space still overlaps every bin from its start onwards
+        stop = MAX_CHROM_SIZE - 1
 
     # Jump to highest resolution bin that will fit these coords (depending on
     # whether we have a BED or GFF-style coordinate).
